@@ -1,7 +1,11 @@
 package props
 
 import (
+	"context"
+	"errors"
 	"fmt"
+	"io"
+	"os"
 
 	"verifharness/core"
 
@@ -211,11 +215,23 @@ func offsetFromCode(code int64, data []byte) int {
 	return int(code)
 }
 
+// wellKnownErrs are sentinel errors of the standard library that a handler may pass on (from
+// a reader, a context, a file) or use itself to stop a traversal early.
+var wellKnownErrs = []error{io.EOF, io.ErrUnexpectedEOF, context.Canceled, context.DeadlineExceeded, os.ErrNotExist, io.ErrShortBuffer, errors.New("EOF")}
+
 // c10Handler: the handler answers call k with the offset coded by codes[k] (0 beyond the
 // vector). reentrant: before answering it re-enters the library on its data with the very
 // Buffer of the enclosing call. Returns whether a hostile (unfitting) offset was returned
 // for an offset-honouring member.
-func c10Handler(in []byte, kind byte, codes []int64, reentrant bool, buf *rjson.Buffer) (nontrivial bool, err error) {
+func c10Handler(in []byte, kind byte, codes []int64, mode int64, buf *rjson.Buffer) (nontrivial bool, err error) {
+	reentrant := mode&1 == 1
+	// mode>>1 selects an error the handler returns together with its last coded offset
+	// (0 = none): whatever a handler returns, a nil error never comes with an offset
+	// outside the input
+	var lastErr error
+	if sel := mode >> 1; sel > 0 {
+		lastErr = wellKnownErrs[int(sel-1)%len(wellKnownErrs)]
+	}
 	unfit := false
 	h := &recHandler{limit: len(in) + 1}
 	h.decide = func(k int, key, data []byte) (int, error) {
@@ -232,6 +248,12 @@ func c10Handler(in []byte, kind byte, codes []int64, reentrant bool, buf *rjson.
 		off := 0
 		if k < len(codes) {
 			off = offsetFromCode(codes[k], data)
+		}
+		if lastErr != nil && k == len(codes)-1 {
+			if off != 0 {
+				nontrivial = true
+			}
+			return off, lastErr
 		}
 		if len(data) > 0 && (data[0] == '"' || data[0] == '[' || data[0] == '{') {
 			if off < 0 || off > len(data) {
@@ -285,7 +307,7 @@ func CheckC10(c *core.Case) error {
 		if len(c.Ints) < 3 {
 			return fmt.Errorf("bad case")
 		}
-		_, err := c10Handler(in, byte(c.Ints[0]), c.Ints[3:], c.Ints[1] != 0, bufferConfig(c.Ints[2]))
+		_, err := c10Handler(in, byte(c.Ints[0]), c.Ints[3:], c.Ints[1], bufferConfig(c.Ints[2]))
 		return err
 	}
 	fn, cfg := -1, int64(0)
